@@ -588,7 +588,7 @@ def read_c11_case(path):
 class Prop:
     id = "C11"
     lean_module = "MuduoVerif.Props.C11"
-    gen_engines = ["Conn", "Client", "Acceptor", "SysSkel"]
+    gen_engines = ["Conn", "Client", "Acceptor", "SysSkel", "LoopSkel"]
     drivers = ["conn", "client", "acceptor"]
     technique = ("Lean 4: errno classifications by kernel evaluation of tables re-extracted from sockets::accept / "
                  "Acceptor::handleRead / Connector::connect / the pollers (T1); handler-level fault theorems for all states, "
@@ -634,6 +634,7 @@ class Prop:
     trusted_base = CONN_TRUSTED + [
         "vlib/gen/sysskel.py (clang-14 JSON AST -> Generated/SysSkel.lean: statement skeletons of every function of SocketsOps.cc, Socket.cc/.h, InetAddress.cc/.h, Endian.h, Poller.cc, poller/DefaultPoller.cc, the poller constructors/destructors, Channel::tie, createEventfd, createTimerfd; what it leaves out is listed in the generated header) and the reading Model/SysSkelDecl.lean of what the "
         "models assume of each primitive (one system call, arguments passed through, result returned unchanged, failures only logged - or exactly the declared extra work); C11 depends on io_primitives_are_single_syscalls (sockets::write/read/readv/connect/close/shutdownWrite/getSocketError/accept, Socket::accept; the accept switch is cross-checked with Generated/Acceptor.lean's table); still trusted: the kernel's / glibc's behaviour behind each system call",
+        "vlib/gen/loopskel.py (clang-14 JSON AST -> Generated/LoopSkel.lean: statement skeletons of every function of EventLoop.cc, EventLoopThread.cc, EventLoopThreadPool.cc, Acceptor.cc and Channel::Channel / ~Channel; what it leaves out is listed in the generated header) and the reading Model/LoopSkelDecl.lean; C11 depends on acceptor_statement_order_tied (Acceptor constructor, destructor, listen: listen() before enableReading(), handleRead: accept / callback-or-close / the EMFILE sequence)",
         "vlib/gen/acceptor.py, vlib/gen/client.py (clang-14 JSON AST -> Generated/Acceptor.lean, Generated/Client.lean)",
         "hand-written Model/Acceptor.lean and Model/Client.lean, tied by the differential runs (harness/acceptor_drv.cc vs "
         "drv_acceptor, harness/client_drv.cc vs drv_client)",
